@@ -142,10 +142,14 @@ pub fn check_state(subj: &LevelSubject, rcd: &Recorder, hist: &[u16], op: &Op, e
     // what the known-deviation model (the implementation's own queue discipline: KF1 + KF2) predicts for
     // the original: a difference between original and restored is attributed to a known finding only
     // if the original behaves exactly as those mechanisms say
-    let model_t: Option<Vec<Vec<ImplRes>>> = e
+    // one prediction per model variant that has agreed with the implementation along this history
+    let model_ts: Vec<Vec<Vec<ImplRes>>> = e
         .model_after
-        .first()
-        .and_then(|m| m.as_ref())
+        .iter()
+        .zip(e.mres.iter())
+        .filter(|(m, r)| m.is_some() && r.as_ref() == Some(&e.res))
+        .filter_map(|(m, _)| m.as_ref())
+        .filter(|m| same_orders(&m.canonical_orders(), &e.post.orders))
         .map(|m0| {
             conts
                 .iter()
@@ -163,7 +167,8 @@ pub fn check_state(subj: &LevelSubject, rcd: &Recorder, hist: &[u16], op: &Op, e
                     t
                 })
                 .collect()
-        });
+        })
+        .collect();
 
     // the snapshot source
     let src = subj.exec(rcd, hist, op, 0, false, true);
@@ -214,15 +219,12 @@ pub fn check_state(subj: &LevelSubject, rcd: &Recorder, hist: &[u16], op: &Op, e
                     let msg = format!(
                         "{path:?}: state {} queue order {:?} (tickets {:?}), snapshot listing {lids:?}; continuation [{cname}; drain]: original [{}] / restored [{}]",
                         e.post.describe(), effective, e.tickets, describe(&t_o[ci]), describe(&t_r));
-                    let explained = model_t
-                        .as_ref()
-                        .map(|mt| mt[ci] == t_o[ci])
-                        .unwrap_or(false);
+                    let explained = model_ts.iter().any(|mt| mt[ci] == t_o[ci]);
                     if !explained {
                         if out.violations.len() < 5 {
                             out.violations.push(format!(
                                 "C11 original and restored level trade differently and the original does not behave as the known queue mechanisms (KF1/KF2) predict: {msg}; predicted for the original [{}]",
-                                model_t.as_ref().map(|mt| describe(&mt[ci])).unwrap_or_default()));
+                                model_ts.iter().map(|mt| describe(&mt[ci])).collect::<Vec<_>>().join(" || ")));
                         }
                     } else if clean && ts_consistent {
                         if out.violations.len() < 5 {
